@@ -557,6 +557,70 @@ def run(rep):
                             if not b.startswith("_") and not _reads([a["body"], a.get("guard") or {}], b):
                                 rep.violation("P8", key, "`%s` of %s is bound in an arm of %s and never read: the component is neither compiled nor refused" % (b, "::".join(pt["path"]["segs"]), f.qual), "src/%s:%d" % (f.file, a["l"]))
 
+    # ---------------- P9 a rule of a node has one input label per child
+    rep.rule(
+        "P9",
+        "rewriting/rewriting_rule.rs: every row `RewritingRule::new(vec![inputs..], output, parameters)` built by RewritingRulesSetter::{table, map, reduce, join, set, values} has exactly as many input "
+        "labels as the method has child parameters (`Arc<RelationWithRewritingRules>`): 0 / 1 / 1 / 2 / 2 / 0",
+        floor=30,
+        necessary="the eliminator and the selector read `rule.inputs()[0]` and `[1]` of a binary node: a Set row with one input makes every rewriting of a query with UNION panic "
+        "(index out of bounds) as soon as synthetic data is provided",
+    )
+    from . import c02 as _c02
+
+    class _Quiet:  # extract_rules reports unreadable rows under C02/T1; here they only fail to count
+        def undecidable(self, *a, **k):
+            pass
+
+    rows9, setters9 = _c02.extract_rules(src8, _Quiet())
+    for r in rows9:
+        fn9 = [f for f in src8.find_fns(file=_c02.RR, trait_re=r"^SetRewritingRulesVisitor", self_ty_re=r"^RewritingRulesSetter") if f.name == r.kind][0]
+        arity = sum(1 for p in fn9.params if not p.get("self") and "RelationWithRewritingRules" in (p.get("ty") or ""))
+        key = "%s:[%s]->%s(%s)" % (r.kind, ",".join(r.inputs), r.output, r.params)
+        rep.instance("P9", key, {"node": r.kind, "children": arity, "inputs": len(r.inputs)}, nontrivial=False)
+        if len(r.inputs) != arity:
+            rep.violation("P9", key, "a rule of RewritingRulesSetter::%s has %d input label(s) for a node with %d child(ren): the eliminator / selector index one label per child" % (r.kind, len(r.inputs), arity), "src/%s:%d" % (_c02.RR, r.node["l"]))
+
+    # ---------------- P10 float images are brought back into the finite floats
+    rep.rule(
+        "P10",
+        "data_type/function.rs: every closure given to a PartitionnedMonotonic constructor over a Float domain that computes with an operation able to leave the finite floats "
+        "(+ - * /, exp, ln, log*, sqrt, powf, powi, cbrt, sinh, cosh, tan, recip, mul_add) ends with `.clamp(lo, <f64 as Bound>::max())`",
+        floor=9,
+        necessary="the image of an interval is computed at its corners: `0^-1`, `f64::MAX^2`, `MAX + MAX` are +inf, the next interval operation gives inf - inf = NaN, and Intervals::union_interval "
+        "asserts min <= max: the DP rewriting of VARIANCE / STDDEV (sum(pow(..))) panics instead of answering",
+    )
+    UNBOUNDED_M = {"exp", "exp2", "exp_m1", "ln", "ln_1p", "log", "log2", "log10", "sqrt", "cbrt", "powf", "powi", "sinh", "cosh", "tan", "recip", "mul_add", "hypot"}
+    per10 = {}
+    for f in src8.fns:
+        if f.file != "data_type/function.rs" or f.test or not f.body:
+            continue
+        for c in _find8(f.body, "call"):
+            pth = "::".join((c["f"].get("segs") or [])) if c["f"]["k"] == "path" else ""
+            if "PartitionnedMonotonic" not in pth or not c["args"] or "Float" not in _show8(c["args"][0], 0):
+                continue
+            for a in c["args"][1:]:
+                if a["k"] != "closure":
+                    continue
+                ops = [x for x in _walk8(a["body"]) if (x.get("k") == "binary" and x["op"].strip() in ("+", "-", "*", "/")) or (x.get("k") == "mcall" and x["m"] in UNBOUNDED_M)]
+                if not ops:
+                    continue
+                tail = a["body"]
+                while True:
+                    if tail["k"] == "paren":
+                        tail = tail["e"]
+                    elif tail["k"] == "block" and tail["stmts"] and tail["stmts"][-1]["k"] == "expr" and not tail["stmts"][-1].get("semi"):
+                        tail = tail["stmts"][-1]["e"]
+                    else:
+                        break
+                n10 = per10[f.qual] = per10.get(f.qual, 0) + 1
+                key = "%s@float-image%s" % (f.qual, "" if n10 == 1 else "#%d" % n10)
+                hi = _show8(tail["args"][1], 0).replace(" ", "") if tail["k"] == "mcall" and tail["m"] == "clamp" and len(tail["args"]) == 2 else None
+                ok = hi is not None and ("Bound>::max()" in hi or hi in ("f64::MAX", "std::f64::MAX", "core::f64::MAX"))
+                rep.instance("P10", key, {"fn": f.qual, "operation": _show8(ops[0], 40), "clamped_to": hi})
+                if not ok:
+                    rep.violation("P10", key, "%s computes `%s` on floats and returns it without `.clamp(.., <f64 as Bound>::max())`: an infinite corner value becomes a NaN bound later" % (f.qual, _show8(ops[0], 40)), "src/%s:%d" % (f.file, a["l"]))
+
     # ---------------- P7 fallible images behind the Optional wrapper
     rep.rule(
         "P7",
